@@ -36,23 +36,29 @@ ENGINE = "Par"
 # ============================================================================= build
 def build(ck):
     d = COQ / ENGINE
-    # the shared semantic core must be compiled (read-only for this engine)
-    rc, out = sh("coq_makefile -f _CoqProject -o Makefile.coq >/dev/null && make -f Makefile.coq -j8",
-                 cwd=COQ / "Core", timeout=1200)
-    if rc != 0:
-        ck.broken_obligation("coq-build:Core", out[-400:])
+    # the shared semantic core (read-only for this engine): only Syntax.vo and Sem.vo are needed here
+    core = COQ / "Core"
+    stale = [f for f in ("Syntax", "Sem")
+             if not (core / (f + ".vo")).exists()
+             or (core / (f + ".vo")).stat().st_mtime < (core / (f + ".v")).stat().st_mtime]
+    if stale:
+        rc, out = sh("coqc -Q . Core Syntax.v && coqc -Q . Core Sem.v", cwd=core, timeout=900)
+        if rc != 0:
+            ck.broken_obligation("coq-build:Core", out[-400:])
     before = {f: (d / f).read_text() if (d / f).exists() else None for f in ("Gen_ParTraverse.v", "Gen_EffPreds.v")}
     ck.gen(ENGINE)
     after = {f: (d / f).read_text() if (d / f).exists() else None for f in before}
     if before["Gen_ParTraverse.v"] != after["Gen_ParTraverse.v"] or after["Gen_ParTraverse.v"] is None:
         # never run a stale extraction of the traversal
-        for f in ("ExtractTrav.vo", "ocaml/partrav.ml", "ocaml/partrav.mli", "_build/partrav"):
+        for f in ("ExtractTrav.vo", "_build/partrav.ml", "_build/partrav.mli", "_build/partrav"):
             try:
                 (d / f).unlink()
             except OSError:
                 pass
-    for f in ("ocaml",):
-        (d / f).mkdir(exist_ok=True)
+    (d / "_build").mkdir(exist_ok=True)
+    for vo, ml in (("ExtractFp.vo", "_build/parfp.ml"), ("ExtractTrav.vo", "_build/partrav.ml")):
+        if not (d / ml).exists() and (d / vo).exists():   # _build was wiped: force the extraction to run again
+            (d / vo).unlink()
     built = ck.coq_build(ENGINE, timeout=1500)
     # Props_C01preds.v belongs to C01 but depends on the same translation: report its state here too
     if not (d / "Props_C01preds.vo").exists():
